@@ -45,14 +45,18 @@ MANIFEST = {
             "re-registration performed by DateTime.normalize_to_gmt never adds or removes a registry key; after any history, and at any point of "
             "any interleaving of the atomic steps of register and dispatch by any number of threads, every handler that dispatch returns - stale "
             "cache entries included - answers every (caller, value) like the import-time handler, and every completed unconvert equals a stateless "
-            "function of its own arguments. The model is tied to ofxtools/Types.py by a fail-closed source check and by evaluating it (vm_compute) "
-            "against registry/cache introspection of the real classes after every event of ~2*10^3 (thorough 3*10^4) random workloads. Purity of "
-            "parse/convert/serialize on CPython objects is established by differential testing only (see level_note).",
+            "function of its own arguments (hypothesis, explicit and measured on every run: the interpreter rebinds a registered bound method to "
+            "the calling instance, as CPython 3.11+ does, or _unconvert_datetime ignores self). The model is tied to ofxtools/Types.py by a "
+            "fail-closed source check and by evaluating it (vm_compute) against registry/cache introspection of the real classes after every "
+            "event of ~2*10^3 (thorough 3*10^4) random workloads. Purity of parse/convert/serialize on CPython objects is established by "
+            "differential testing only (see level_note).",
     "note": "Proved: registry_keys_constant, dispatch_history_independent, dispatch_interleaving_independent, model_functions_total_on_inputs "
             "(the stateful dispatch machine refines a stateless specification). NOT provable in any Gallina model and covered by the correspondence / "
-            "purity run only: that the implementation leaves its inputs unmodified, keeps no other hidden state, and is unaffected by real threads. "
-            "Trusted: Coq kernel + vm_compute; the hand transcription Model/Dispatch.v of functools.singledispatch; the harness (introspection of closure "
-            "cells; interleaved steps are re-enacted). Print Assumptions: closed under the global context.",
+            "purity run only (differential testing): that the implementation leaves its inputs unmodified (snapshots around ~2*10^4 calls, thorough 10^5), "
+            "keeps no other hidden state (clean-process baselines vs rotated orders, random histories, inputs held across other work, repetition) and is "
+            "unaffected by real threads (1..16 threads + re-registering hammer threads). Trusted: Coq kernel + vm_compute; the hand transcription "
+            "Model/Dispatch.v of functools.singledispatch; the harness (introspection of closure cells; interleaved steps are re-enacted on the real "
+            "objects). Print Assumptions: closed under the global context.",
 }
 
 TOOLS = os.path.join(C.VERIF, "tools")
@@ -818,7 +822,8 @@ def run_dispatch(rep, cases, rereg, fails, tag):
         for case, obs in zip(ch, res["cases"]):
             inter = any(e[0] == "es" for e in case["events"])
             if "unenc" in obs:
-                rep.disagreements.append({"case": case, "implementation": obs["unenc"]})
+                if len(rep.disagreements) < 50:
+                    rep.disagreements.append({"case": case, "implementation": obs["unenc"]})
                 rep.count(("dispatch", case), nontrivial=False, kind="dispatch:unencodable")
                 continue
             items.append(coq_dcase(case, obs)); kept.append((case, obs))
